@@ -153,16 +153,16 @@ CHECKS["C12"] = {"text": "The model's update_pert (forward pass, critical path l
     "sequences of progress updates + update_PERT_data(t).",
     "note": COMMON_NOTE,
     "technique": "Coq proof (generic frontier/worklist invariant with rank-based termination, instantiated for the forward and backward pass; Q arithmetic by lra) + model/implementation correspondence of PERT fields + independent CPM oracle"}
-CHECKS["C15"] = {"text": "Proved for every configuration, options, incoming state, pause step k (beyond the makespan included) and final max_time m >= k: the run resumed from the state returned by the paused run "
-    "(initialize_state_info = initialize_log_info = False, proved to leave the state untouched) returns exactly the state of the uninterrupted run -- all logs, costs, time, status and live state -- (1) unconditionally for "
-    "every finish-to-start DAG with non-negative work amounts (any resources, rules, absences, components), (2) for every acyclic network with any mix of dependency kinds provided no task has negative remaining work at "
-    "the `updated` snapshots of the run, (3) for arbitrary models provided the PERT refresh is idempotent there. Ingredients: no phase reads project.status (35 commutation lemmas), the loop is deterministic, the trace "
-    "splits at the pause point, __update is idempotent on its own result (finishing pass, component states, removal, ready check proved directly; the PERT refresh by comparing two runs of the frontier iteration in lock "
-    "step). The remaining side condition of (2)/(3) is checked on the implementation at every step of every explored run (second __update call from the observer); the model is tied to the code by the full-state "
-    "correspondence on a paused+resumed operation sequence. Pause at EVERY k in 0..makespan and the route through a JSON file are searched by the oracle.",
-    "note": COMMON_NOTE + " PARTIAL only in this sense: for networks with FF/SF links a task can overshoot its work while blocked (negative remaining work); for such states the idempotence of the PERT refresh is a hypothesis "
-    "(validated per run). Uses functional_extensionality_dep (states are records of functions). The JSON route relies on C16.",
-    "technique": "Coq proof (status-independence of every phase, determinism and trace splitting, idempotence of __update incl. a relational two-run argument for the PERT passes) + per-run validation of the residual side condition + model/implementation correspondence on pause+resume + oracle pausing at every step, in memory and through JSON"}
+CHECKS["C15"] = {"text": "Proved for every ACYCLIC model (any mix of the four dependency kinds, any resources, rules, absences, components on disjoint trees), every incoming state of a freshly initialised or placement-consistent "
+    "project, every pause step k (beyond the makespan included) and every final max_time m >= k: the run resumed from the state returned by the paused run (initialize_state_info = initialize_log_info = False, proved to leave the "
+    "state untouched) returns exactly the state of the uninterrupted run -- all logs, costs, time, status and live state -- with NO side condition (C15_pause_resume_any_acyclic_model). Ingredients: no phase reads project.status "
+    "(35 commutation lemmas), the loop is deterministic, the trace splits at the pause point, __update is idempotent on its own result: finishing pass, component states, removal, ready check proved directly; the PERT refresh "
+    "for EVERY state, including negative remaining work of tasks held back by FF/SF links (a relaxation of the forward pass can then fail and a stale earliest-finish value can be read: two runs are compared in lock step with a "
+    "ghost recording which edge set each node last and what its source looked like; at the end of the frontier iteration that source is unchanged, so the final value is the same function of the source's final value in both runs). "
+    "For arbitrary (possibly cyclic) models the theorem with the idempotence of the PERT refresh as a hypothesis remains. The model is tied to the code by the full-state correspondence on a paused+resumed operation sequence and by a "
+    "second __update call from the observer at every step of every explored run; pause at EVERY k in 0..makespan and the route through a JSON file are searched by the oracle.",
+    "note": COMMON_NOTE + " Uses functional_extensionality_dep (states are records of functions). The JSON route relies on C16.",
+    "technique": "Coq proof (status-independence of every phase, determinism and trace splitting, idempotence of __update incl. a relational two-run argument with a ghost for the PERT passes) + per-run validation of idempotence on the implementation + model/implementation correspondence on pause+resume + oracle pausing at every step, in memory and through JSON"}
 CHECKS["C13"] = {"text": "Proved for every product that is a forest (flat and nested; no component reached twice), every configuration, options and run: (a) in every snapshot a workplace lists a component exactly "
     "when the component reports being placed there and no component is listed twice (so at most one workplace); (b),(c),(d) a component is put somewhere only if no component of its assembly has moved in this step, has a "
     "WORKING task or holds a resource, every component of the assembly comes from nowhere or from an input workplace the target declares, and its size minus 1e-8 is below the free space -- then exactly its assembly moves; "
